@@ -252,11 +252,14 @@ def c14collect(nf, nfetch, timeout=900):
 PROPS["C14"] = dict(
     title="Denied fields never reach the client and denied mutations never reach a subgraph",
     level_text="bounded symbolic execution of the real authorization code in three composable pieces, the decision function being a symbolic variable in each: (a) the plan-time coordinate collector lists exactly the protected (data source, type, field) triples of a symbolic response tree and fetch list; (b) given the listed coordinates, the real Resolvable renders a response whose data equals the reference completion of the data with every denied field nulled (so sentinel values of denied fields cannot appear and the denial null-propagates), and a denial at a certainly reached position is reported with code and path; (c) through the real resolver entry point and loader, a fetch is sent iff the request-sent rule allows it and denied root fields are reported",
-    level_note="bounds: one fixed plan shape per harness (3 protected coordinates, nested object and list), <=2 data deviations, one fetch with two root fields; abstract types/type-conditioned protected fields, deferred payloads and subscription updates are not exercised; the planner's computation of FieldInfo.HasAuthorizationRule (plan/visitor.go) is outside: harnesses start from the plan (seed C14-3 not detected); composition of (a) with (b)/(c) is by argument: (b)/(c) are given exactly the coordinate list that (a) shows the collector produces; trusted base: gosym, z3, reference completion",
+    level_note="bounds: one fixed plan shape per harness (3 protected coordinates, nested object and list), <=2 data deviations, one fetch with two root fields; abstract types/type-conditioned protected fields, deferred payloads and subscription updates are not exercised; H-C14d starts from the planner configuration and runs the whole pipeline on 7 operations; composition of (a) with (b)/(c) is by argument: (b)/(c) are given exactly the coordinate list that (a) shows the collector produces; trusted base: gosym, z3, reference completion",
     design_ref="DESIGN.md §4 C14",
     assumptions=["the coordinate list handed to authorizePreFetch in (b)/(c) is the set H-C14a shows the collector produces", "authorizer stubs are pure functions of the coordinate (no errors returned)"],
     stubs=["Authorizer / BatchAuthorizer: harness stubs answering from a symbolic decision table", "DataSource: harness stub returning sentinel data", "go-arena (no arena), sync.Pool (always New)"],
-    quick=[c14collect(2, 0), c14render(0, 1, 0), c14render(1, 1, 1), c14fetch(0, 1), c14fetch(1, 1), c14fetch(0, 0), c14fetch(1, 0)],
+    quick=[c14collect(2, 0), c14render(0, 1, 0), c14render(1, 1, 1), c14fetch(0, 1), c14fetch(1, 1), c14fetch(0, 0), c14fetch(1, 0),
+           spec("H-C14d", "./pkg/engine/datasource/graphql_datasource", ["gqlds/c01_exec.go", "gqlds/c01_fed.go", "gqlds/c14_planner.go", "common/zz_json.go", "common/zz_exec.go"], "VerifC14Planner", [],
+                "end to end from the planner configuration: federation F1 with User.username and Product.price protected in plan.Configuration.Fields; 7 operations (plain, aliased, duplicated under two aliases, below entity jumps, inside a type fragment), decision per coordinate and authorizer mode (post-fetch Authorizer / pre-fetch BatchAuthorizer) solver-chosen; real planner (FieldInfo.HasAuthorizationRule), collector, resolver, loader, resolvable; oracle = monolith on data with the denied fields nulled",
+                ["a selected field is denied"])],
     thorough=[c14collect(2, 1, 1800), c14collect(3, 0, 1800), c14render(0, 2, 1, 1800), c14render(1, 2, 1, 1800), c14render(1, 2, 0, 1800)],
 )
 
@@ -375,15 +378,20 @@ def c19(proto, k, sched, timeout=1800):
                 "%d client messages, each solver-chosen from a %d-message alphabet (connection_init with/without payload, subscribe/start of a subscription, a query, a failing query, a mutation, with duplicate ids, bad payload, complete/stop of known and unknown ids, ping, pong, terminate, unknown type, truncated JSON, JSON array) through the real UniversalProtocolHandler, %s protocol handler, event handler, message reader/writer and ExecutorEngine; stub executor pool and scripted transport client; the client reads only when every server goroutine is blocked%s" % (k, n, "graphql-transport-ws" if proto == 0 else "graphql-ws", "; goroutine schedules of engine and handler explored with <=1 preemption" if sched else ""),
                 ["connection closed by the server", "connection stayed open"] if proto == 0 else ["trace accepted"], dir="execution", timeout=timeout, preempt=1)
 
+def c19t(k, sched, timeout=1800):
+    return spec("H-C19c[%d,%d]" % (k, sched), "./subscription/websocket", C19H, "VerifC19TransportWSTimers", [k, sched],
+                "graphql-transport-ws with time in the alphabet: %d symbols, each solver-chosen from 9 client messages, 'every pending timer expires now' and 'one read fails'; after the script the connection is either closed or keeps failing reads while time passes (solver-chosen); timers are fired by the harness (engine: verifFireTimers; native replay: 30 ms durations and real time)" % k,
+                ["connection closed by the server", "connection stayed open"], dir="execution", timeout=timeout, preempt=1)
+
 PROPS["C19"] = dict(
     title="WebSocket server obeys graphql-ws / graphql-transport-ws on any message sequence",
     level_text="bounded symbolic execution of the real WebSocket subscription server stack below the network connection: every sequence of k messages over the alphabet is explored, the unified trace of client messages, server messages and close codes must be accepted by a reference protocol state machine (ack once after init; 4401 subscribe before init, 4429 second init, 4400 unknown type or JSON syntax error, 4409 duplicate id, no other close; pong for ping; operation output only after init, only for subscribed ids, nothing after the id's terminal message, every query/mutation terminated exactly once; handler returns when the client is gone)",
-    level_note="bounds: k<=3 (quick) / 4 (thorough) messages from a fixed alphabet; timers never fire, so the connection-init timeout (4408), keep-alive/heartbeat, subscription update ticks and the read-error timeout are not exercised; the gobwas/ws framing and net.Conn client are below the stubbed TransportClient; encoding/json is the engine's model; trusted base: gosym scheduler, reference state machine",
+    level_note="bounds: k<=3 (quick) / 4 (thorough) messages from a fixed alphabet; in H-C19a/b timers never fire; in H-C19c timer expiry is a symbol of the alphabet (all pending timers at once), which exercises the connection-init timeout (4408), heartbeat, subscription update ticks and the read-error timeout, but not orders among simultaneously pending timers; the gobwas/ws framing and net.Conn client are below the stubbed TransportClient; encoding/json is the engine's model; trusted base: gosym scheduler, reference state machine",
     design_ref="DESIGN.md §4 C19",
     assumptions=["timers never fire", "the client does not send while the server still has runnable work (reads happen at quiescence)"],
     stubs=["subscription.TransportClient: scripted client recording writes and close reasons", "subscription.ExecutorPool/Executor: stub deciding operation type and result from the query text", "encoding/json, time.ParseDuration: engine models"],
-    quick=[c19(0, 3, 0), c19(1, 3, 0), c19(0, 2, 1), c19(1, 2, 1)],
-    thorough=[c19(0, 4, 0, 3000), c19(1, 4, 0, 3000), c19(0, 3, 1, 3000)],
+    quick=[c19(0, 3, 0), c19(1, 3, 0), c19(0, 2, 1), c19(1, 2, 1), c19t(3, 0)],
+    thorough=[c19(0, 4, 0, 3000), c19(1, 4, 0, 3000), c19(0, 3, 1, 3000), c19t(4, 0, 3000)],
 )
 
 C10H = ["gqlds/c01_exec.go", "gqlds/c01_fed.go", "gqlds/c10_defer.go", "common/zz_json.go", "common/zz_exec.go"]
